@@ -10,6 +10,7 @@ abstract map: create inserts, destroy erases, a write updates the row of the des
 entity, clone maps.  History = labelled path (see Props/C17).
 Modelled, not verified: that `DataPtr::{write, slice, swap_remove, grow}` implement
 append / index / swap-remove / copy on real memory for every `T`.
+World-history forms of these theorems (for every finite history of the world API): Props/Histories.lean.
 -/
 import Gecs.Lemmas.Values
 
